@@ -414,7 +414,7 @@ Ltac fin := proj; auto; try lia; try discriminate;
 
 Lemma bstep_inv s t s' : BInv s -> bstep s t = Some s' -> BInv s'.
 Proof.
-  intros I H. destruct t as [|k|k|]; cbn [BatchConc.bstep] in H; unfold nitems in H.
+  intros I H. destruct t as [|k|k| |]; cbn [BatchConc.bstep] in H; unfold nitems in H.
   - pose proof (I_deq _ I) as Hde. pose proof (I_enq _ I) as Hen. pose proof (I_wg _ I) as Hwg.
     destruct (mpc s) eqn:Hm.
     + destruct (adding s) eqn:Ha.
@@ -440,6 +440,7 @@ Proof.
     destruct (closed s); inv H.
     eapply upd_exit with (s := s) (k := k); eauto; reflexivity.
   - inv H. apply upd_main with (s := s); proj; auto; try apply I.
+  - inv H. apply upd_main with (s := s); unfold note_park; proj; auto; try apply I.
 Qed.
 
 Lemma brun_inv sched : forall s, BInv s -> BInv (brun s sched).
